@@ -36,6 +36,7 @@ type hySecCall struct {
 	Fail   bool // the call was scripted to fail (no effect on the map)
 	Step   int  // logical time supplied by the driver
 	Now    int64
+	EndNow int64 // get: the virtual clock when the call handed its answer back (after the slow part)
 	Tid    int
 	Ctx    any  // driver-supplied context (ICB: the client call on whose thread the secondary was invoked)
 	Cur    bool // set: the value written is the value the shard map holds for the key at that moment; get: the shard map holds an entry for the key at that moment
@@ -121,7 +122,9 @@ func (s *hySec) Get(key int) (value int, cost int64, expire int64, ok bool, err 
 	}
 	e, ok := s.m[key]
 	s.rec(hySecCall{Op: "get", K: key, V: e.V, Cost: e.Cost, Expire: e.Expire, Found: ok})
+	idx := len(s.log) - 1
 	s.pause("get")
+	s.log[idx].EndNow = vrt.NowNanos()
 	if !ok {
 		return 0, 0, 0, false, nil
 	}
